@@ -39,7 +39,8 @@ pub struct SelCase {
   pub selected: Vec<usize>,
   pub cached: Vec<usize>,
   pub cutoff: bool,
-  /// 0 none, 1 exact name excluded, 2 prefix excluded, 3 other package excluded
+  /// 0 none, 1 exact name excluded, 2 scope prefix excluded, 3 other package excluded,
+  /// 4 prefix past the scope that covers the package, 5 prefix past the scope that does not
   pub exclusion: u8,
 }
 
@@ -77,7 +78,7 @@ pub fn model_select(c: &SelCase, versions: &[Version]) -> Result<(usize, bool), 
     let y = c.registry.iter().find(|r| r.v == b).map(|r| r.yanked).unwrap_or(false);
     return Ok((b, y));
   }
-  let date_applies = c.cutoff && !matches!(c.exclusion, 1 | 2);
+  let date_applies = c.cutoff && !matches!(c.exclusion, 1 | 2 | 4);
   let date_ok = |r: &RegVersion| !date_applies || r.date != DateClass::After;
   // preferring already-cached manifests when that mode is on
   if !c.cached.is_empty()
@@ -143,6 +144,10 @@ pub fn real_select(c: &SelCase, versions: &[Version]) -> Result<(usize, bool), b
       opts.exclude_jsr_pkgs.insert("@s/ab".into());
       opts.exclude_jsr_pkg_prefixes.push("@t/".into());
     }
+    // prefixes that reach past the scope: "@s/a" covers @s/a (and @s/ab),
+    // "@s/ab" does not cover @s/a
+    4 => opts.exclude_jsr_pkg_prefixes.push("@s/a".into()),
+    5 => opts.exclude_jsr_pkg_prefixes.push("@s/ab".into()),
     _ => {}
   }
   let resolver = JsrVersionResolver {
@@ -252,7 +257,7 @@ pub fn run_selection(tier: Tier, seed: u64, acc_out: &mut Acc) {
     .map(|m| sub.iter().enumerate().filter(|(i, _)| m >> i & 1 == 1).map(|(_, v)| *v).collect())
     .collect();
   let stride = tier.pick(37usize, 1);
-  let total = configs.len() * REQS.len() * 16 * 16 * 2 * 4;
+  let total = configs.len() * REQS.len() * 16 * 16 * 2 * 6;
   let chunk = 4096usize;
   let n_chunks = total.div_ceil(chunk);
   let offset = (seed as usize) % stride;
@@ -264,8 +269,8 @@ pub fn run_selection(tier: Tier, seed: u64, acc_out: &mut Acc) {
         continue;
       }
       let mut k = idx;
-      let excl = (k % 4) as u8;
-      k /= 4;
+      let excl = (k % 6) as u8;
+      k /= 6;
       let cutoff = k % 2 == 1;
       k /= 2;
       let cached = &subsets[k % 16];
@@ -316,7 +321,7 @@ pub fn run_selection(tier: Tier, seed: u64, acc_out: &mut Acc) {
         selected: pick_set(&mut rng, 2),
         cached: pick_set(&mut rng, 3),
         cutoff: rng.coin(),
-        exclusion: rng.below(4) as u8,
+        exclusion: rng.below(6) as u8,
       };
       check_case(&c, &versions, acc, hash64(&(ci, j, "rand")));
     }
@@ -328,7 +333,7 @@ pub fn run(tier: Tier, seed: u64) -> i32 {
   let mut rep = Report::new("C06", tier, seed);
   rep.rule = "selection function: JsrVersionResolver::get_for_package(..).resolve_version(..) called directly and compared with a model of the four-tier rule written from the statement. \
     Exhaustive block: every registry configuration of a 4-version universe (absent | present x yanked x {no date, before, after cutoff}: 7^4) x 14 requirements x every subset as already-selected x every subset as cached x cutoff on/off x \
-    exclusion {none, exact name, prefix, unrelated}; quick takes a 1-in-37 stride of it (offset by seed), thorough all of it. Random block: 8-version universe incl. prerelease and 0.x, selected versions possibly outside the registry. \
+    exclusion {none, exact name, scope prefix, unrelated, name prefix covering the package, name prefix not covering it}; quick takes a 1-in-37 stride of it (offset by seed), thorough all of it. Random block: 8-version universe incl. prerelease and 0.x, selected versions possibly outside the registry. \
     Graph level: registry worlds (see coverage.graph_level). non-trivial = at least 2 registry versions match the requirement; distinct by case index"
     .into();
   rep.assumptions = vec!["semver matching itself (deno_semver) is trusted and used by the model".into()];
